@@ -11,6 +11,7 @@ import (
 	"runtime"
 	"time"
 
+	"github.com/ipfs/go-cid"
 	car "github.com/ipld/go-car"
 	carv2 "github.com/ipld/go-car/v2"
 	"github.com/ipld/go-car/v2/blockstore"
@@ -145,7 +146,29 @@ func runEntry(ep string, ro readOpts, in []byte, seq int) string {
 			rc.Has(ctx, string(r.Bytes()))
 			rc.Get(ctx, string(r.Bytes()))
 		}
-		return "_r=ok"
+		// every key the store's own index lists: Has, Get and a drained GetStream (forged length
+		// prefixes are only consulted here, not at open time)
+		n := 0
+		if it, ok := rc.Index().(index.IterableIndex); ok {
+			var keys []mh.Multihash
+			it.ForEach(func(m mh.Multihash, o uint64) error {
+				if len(keys) < 2000 {
+					keys = append(keys, m)
+				}
+				return nil
+			})
+			for _, m := range keys {
+				k := string(cid.NewCidV1(cid.Raw, m).Bytes())
+				rc.Has(ctx, k)
+				rc.Get(ctx, k)
+				if s, err := rc.GetStream(ctx, k); err == nil {
+					io.Copy(io.Discard, io.LimitReader(s, 64<<20))
+					s.Close()
+				}
+				n++
+			}
+		}
+		return fmt.Sprintf("_r=ok _k=%d", n)
 	case "replaceroots":
 		p := tmpPath(fmt.Sprintf("c09-rr-%d.car", seq))
 		os.WriteFile(p, in, 0o644)
